@@ -232,6 +232,15 @@ def absorb (roe : Bool) : Res → Res
   | .raise e => if roe then .raise e else .ok false
   | r => r
 
+/-- PEP 479 on exception names: a `StopIteration` that escapes the body of a generator — the generator
+expressions of `And.__call__`, `Or.__call__` and `Filter.run`, the generator function `RunIf.run` — reaches
+the caller as `RuntimeError("generator raised StopIteration")` -/
+def pep479e (e : String) : String := if e = "Other:StopIteration" then "Other:RuntimeError" else e
+
+def pep479 : Res → Res
+  | .raise e => .raise (pep479e e)
+  | r => r
+
 /-- `not x` (an exception propagates) -/
 def neg : Res → Res
   | .ok b => .ok (!b)
@@ -331,14 +340,14 @@ def call : Obj → Item → Res
 def callAll : List Obj → Item → Res
   | [], _ => .ok true
   | o :: os, v =>
-    match call o v with
+    match pep479 (call o v) with                         -- `f(val)` is evaluated inside a generator expression
     | .ok true => callAll os v
     | r => r
 /-- `any(f(val) for f in self._selectors)` -/
 def callAny : List Obj → Item → Res
   | [], _ => .ok false
   | o :: os, v =>
-    match call o v with
+    match pep479 (call o v) with
     | .ok false => callAny os v
     | r => r
 end
@@ -354,12 +363,29 @@ def filterRun (o : Obj) : List Item → List Item × Option String
   | [] => ([], none)
   | v :: rest =>
     match call names o v with
-    | .raise e => ([], some e)
+    | .raise e => ([], some (pep479e e))                 -- `(val for val in flow if self._selector(val))`
     | .ok true => let (ys, e) := filterRun o rest; (v :: ys, e)
     | .ok false => filterRun o rest
 
 /-- `Filter.fill_into(element, value)`: was `element.fill(value)` called, or what was raised -/
 def filterFillInto (o : Obj) (v : Item) : Res := call names o v
+
+/-- `Filter.fill_into(element, value)` with the element made explicit: `el` = the values the element has been
+filled with so far (`element.fill(value)` appends); an exception of the selector leaves the element as it is -/
+def fillIntoEl (o : Obj) (el : List Item) (v : Item) : Except String (List Item) :=
+  match call names o v with
+  | .raise e => .error e                                 -- no generator here: the exception is not converted
+  | .ok true => .ok (el ++ [v])
+  | .ok false => .ok el
+
+/-- a flow filled value by value into an element through `Filter.fill_into` (what `Split` does with a
+`Filter` used as `FillInto` element), stopping at the first exception: the element, and that exception -/
+def fillIntoAll (o : Obj) : List Item → List Item → List Item × Option String
+  | el, [] => (el, none)
+  | el, v :: rest =>
+    match fillIntoEl names o el v with
+    | .error e => (el, some e)
+    | .ok el' => fillIntoAll o el' rest
 
 /-- `Sequence(Filter(a), Filter(b)).run(flow)` drained by the caller.  Generators are lazy: a value that
 passes the first filter is tested by the second before the first sees the next value. -/
@@ -367,11 +393,11 @@ def filterSeqRun (a b : Obj) : List Item → List Item × Option String
   | [] => ([], none)
   | v :: rest =>
     match call names a v with
-    | .raise e => ([], some e)
+    | .raise e => ([], some (pep479e e))
     | .ok false => filterSeqRun a b rest
     | .ok true =>
       match call names b v with
-      | .raise e => ([], some e)
+      | .raise e => ([], some (pep479e e))
       | .ok false => filterSeqRun a b rest
       | .ok true => let (ys, e) := filterSeqRun a b rest; (v :: ys, e)
 
@@ -386,7 +412,7 @@ def runIfRun (o : Obj) (seq : Item → List Item) : List Item → List Item × O
   | [] => ([], none)
   | v :: rest =>
     match call names o v with
-    | .raise e => ([], some e)
+    | .raise e => ([], some (pep479e e))
     | .ok true => let (ys, e) := runIfRun o seq rest; (seq v ++ ys, e)
     | .ok false => let (ys, e) := runIfRun o seq rest; (v :: ys, e)
 
@@ -583,6 +609,15 @@ unchanged -/
 def gbFillR (width : Nat) (t : Tree) (gs : Groups) (v : Item) : Except String Groups :=
   if hasObjL (groupKey width t v) then .error "LenaValueError" else .ok (gbFill width t gs v)
 
+/-- a flow filled into a `GroupBy` value by value, the caller going on after a `LenaValueError` of `fill`
+(the groups are unchanged by a failed `fill`) -/
+def gbFillSkip (width : Nat) (t : Tree) : Groups → List Item → Groups
+  | gs, [] => gs
+  | gs, v :: rest =>
+    match gbFillR width t gs v with
+    | .ok gs' => gbFillSkip width t gs' rest
+    | .error _ => gbFillSkip width t gs rest
+
 /-- an argument of `GroupBy.__init__`: a string / tuple of strings, or something `"" in x` cannot be
 asked of (a callable, a number, `None`) -/
 inductive GbArg where
@@ -616,6 +651,11 @@ def Leaf.truthy : Leaf → Bool
   | .int i => i != 0
   | .str s => s != ""
   | .obj _ => true
+
+/-- Python truthiness of a context value: a dictionary is true iff it has a key -/
+def Val.truthy : Val → Bool
+  | .leaf a => a.truthy
+  | .dict l => nonEmpty l
 
 /-- `_GroupBy(group_by)`: one callable, or a tuple of callables -/
 inductive OldGb where
